@@ -1264,6 +1264,10 @@ class Workflow(Trellis):
     def get_file_hashes(self, paths: Collection[str]) -> dict[str, FileHash]:
         """Get the hashes of existing files.
 
+        Detached files are skipped, as in the startup rescan:
+        they are not part of the workflow,
+        and not every state they can be in (e.g. `UNDECLARED`) accepts a hash update.
+
         Parameters
         ----------
         paths
@@ -1292,7 +1296,7 @@ class Workflow(Trellis):
             "SELECT node.label, file.hash FROM node "
             "JOIN file ON file.node = node.i "
             "WHERE node.kind = 'file' AND node.label IN (SELECT path FROM path_list) "
-            "ORDER BY node.label"
+            "AND NOT node.detached ORDER BY node.label"
         )
         return {path: FileHash.from_json(hash_value) for path, hash_value in db.execute(sql)}
 
